@@ -111,7 +111,8 @@ def shot_case(draw, tier):
     lam = draw(st.sampled_from([0.0, 0.3, 5.0])) if (method == "poisson" and draw(st.booleans())) \
         else float(np.floor(draw(gen.pos_log(1e3, 1e15 if method == "poisson" else 1e12))))
     return {"method": method, "lam": lam, "seed": draw(st.integers(0, 2**32 - 1)),
-            "shape": draw(st.sampled_from([[250, 200], [100, 500], [50000, 1], [224, 224], [600, 90], [80, 700]])),
+            "shape": draw(st.sampled_from([[250, 200], [100, 500], [50000, 1], [224, 224], [600, 90], [80, 700],
+                                           [1031, 1100], [2111, 509]])),          # the last two: more than 2^20 samples
             "gradient": draw(st.booleans())}
 
 
@@ -240,7 +241,8 @@ def shot_noise_boundary(case, ctx):
 @st.composite
 def read_case(draw, tier):
     return {"sigma": draw(gen.pos_log(0.1, 1e4)), "seed": draw(st.integers(0, 2**32 - 1)),
-            "shape": draw(st.sampled_from([[250, 200], [100, 500], [224, 224], [640, 80], [96, 530]])), "offset": draw(gen.finite(-100, 1e4)),
+            "shape": draw(st.sampled_from([[250, 200], [100, 500], [224, 224], [640, 80], [96, 530], [1031, 1100], [509, 2111]])),
+            "offset": draw(gen.finite(-100, 1e4)),
             "rate": draw(gen.finite(0.0, 5000.0)), "dshape": list(draw(gen.shape2(1, 12))),
             "frame_dtype": draw(st.sampled_from(["float", "float", "int64", "uint16", "int32"]))}
 
